@@ -151,6 +151,7 @@ type Interp struct {
 	sealHook     Value
 	openOracle   Value
 	hkdfs        []*hkdfRec
+	dhApps       []dhRec
 	preemptsUsed int
 }
 
